@@ -232,3 +232,19 @@ CHECKS.update({
                       [e1("future", "timed")], "§4 C20",
                       technique="PBT under dsched's virtual clock: exact elapsed-virtual-time predicate, generated notification instants and spurious wakeups"),
 })
+
+CHECKS.update({
+    "C27": pool_check("Pipeline delivers every item through every stage exactly once",
+                      "Pipelines of 1-5 stages (single-stage, generator, filter-capable and plain transforms, sink), written with stage(f, limit) for limits 1, 2, 3, pool+1, unlimited and as plain function objects (serial), 0-12 items, filtering by id, pools of 0-3 threads; heap-owning items that record how many stages they passed. At pipeline()'s return every generated id was seen exactly once by every stage up to the one that filtered it (or the sink) and by none after, each stage received its predecessor's output, no body is running or starts afterwards; all item objects are destroyed by the time the pool is gone.",
+                      [e1("pipe", "pipe")], "§4 C27/C28",
+                      technique="PBT over pipeline shapes (stage count, limits, filters, item count, pool size) under generated dsched schedules; oracle = per-(stage,item) ledger + hop counter carried by each item"),
+    "C28": pool_check("Pipeline stages never exceed their concurrency limit",
+                      "Same generated pipelines as C27; every stage body (generator included) increments a per-stage counter around preemption points; the maximum observed must not exceed the limit given to stage(), and 1 for stages passed as plain function objects.",
+                      [e1("pipe", "pipe")], "§4 C27/C28",
+                      technique="PBT over pipeline shapes under generated dsched schedules; oracle = per-stage concurrent-invocation monitor"),
+    "C29": dict(title="Pipeline exceptions terminate cleanly without leaks", level="fault_enumeration",
+                technique="fault-injection PBT: throwing stage (every stage incl. generator and sink) x throw position (first / middle / last / random item) x pipeline shape x pool size under generated dsched schedules; oracle = termination (deadlock / livelock detector), rethrown tag, (stage,item) ledger, live-item registry after pool destruction, follow-up workload on the same pool",
+                text="C27's pipelines with one (stage, item) pair that throws a tagged exception: pipeline() must terminate (an instance that never gives back its completion share shows as a deadlock / confirmed livelock), rethrow that tag, process no (stage,item) pair twice, leave no heap-owning item alive once the pool is destroyed (items in discarded queued tasks included), and the pool must afterwards run a plain task set and a fresh pipeline correctly.",
+                note=SC_NOTE + " 'The generator stops producing once the exception is observed' is checked through termination only.", design_ref="§4 C29", parts=[e1("pipe", "fault")],
+                assumptions=E1_ASSUME),
+})
